@@ -29,6 +29,8 @@ type Solver struct {
 	cmd     *exec.Cmd
 	in      io.WriteCloser
 	out     *bufio.Reader
+	lines   chan string
+	wch     chan string
 	tt      *TermTable
 	defined []bool // by term id
 	ufDecl  map[string]bool
@@ -74,6 +76,28 @@ func NewSolver(kind string, tt *TermTable, timeoutMs int) (*Solver, error) {
 		lf, _ := os.OpenFile(f+"."+kind+"."+strconv.Itoa(os.Getpid())+"."+strconv.Itoa(int(time.Now().UnixNano()%100000)), os.O_CREATE|os.O_WRONLY|os.O_TRUNC, 0o644)
 		s.log = lf
 	}
+	s.wch = make(chan string, 1<<14)
+	go func() {
+		for str := range s.wch {
+			if _, err := io.WriteString(s.in, str); err != nil {
+				// drain so that senders never block
+				for range s.wch {
+				}
+				return
+			}
+		}
+	}()
+	s.lines = make(chan string, 4096)
+	go func() {
+		for {
+			line, err := s.out.ReadString('\n')
+			if err != nil {
+				close(s.lines)
+				return
+			}
+			s.lines <- strings.TrimRight(line, "\r\n")
+		}
+	}()
 	if kind == "cvc5" {
 		s.send("(set-logic ALL)\n")
 	} else {
@@ -91,9 +115,10 @@ func (s *Solver) SetTimeout(ms int) {
 
 func (s *Solver) Close() {
 	if s.cmd != nil && s.cmd.Process != nil {
-		s.in.Close()
+		s.dead = true
 		s.cmd.Process.Kill()
-		s.cmd.Wait()
+		s.in.Close()
+		go s.cmd.Wait()
 	}
 }
 
@@ -104,7 +129,10 @@ func (s *Solver) send(str string) {
 	if s.log != nil {
 		io.WriteString(s.log, str)
 	}
-	if _, err := io.WriteString(s.in, str); err != nil {
+	select {
+	case s.wch <- str:
+	default:
+		// writer hopelessly behind: treat the solver as dead
 		s.dead = true
 	}
 }
@@ -115,20 +143,31 @@ func (s *Solver) sync() []string {
 	marker := "@@" + strconv.Itoa(s.seq)
 	s.send("(echo \"" + marker + "\")\n")
 	var lines []string
+	// hard deadline: some solver phases ignore the soft timeout
+	limit := time.Duration(s.timeoutMs)*time.Millisecond*2 + 10*time.Second
+	timer := time.NewTimer(limit)
+	defer timer.Stop()
 	for {
 		if s.dead {
 			return append(lines, "(error \"solver died\")")
 		}
-		line, err := s.out.ReadString('\n')
-		if err != nil {
+		select {
+		case line, ok := <-s.lines:
+			if !ok {
+				s.dead = true
+				return append(lines, "(error \"solver died\")")
+			}
+			if strings.Trim(line, "\"") == marker {
+				return lines
+			}
+			lines = append(lines, line)
+		case <-timer.C:
 			s.dead = true
-			return append(lines, "(error \"solver died: "+err.Error()+"\")")
+			if s.cmd.Process != nil {
+				s.cmd.Process.Kill()
+			}
+			return append(lines, "(error \"solver unresponsive: killed after hard timeout\")")
 		}
-		line = strings.TrimRight(line, "\r\n")
-		if strings.Trim(line, "\"") == marker {
-			return lines
-		}
-		lines = append(lines, line)
 	}
 }
 
